@@ -38,11 +38,11 @@ import (
 )
 
 const (
-	c16Margin  = 100 * time.Millisecond  // distance kept from a detection-time boundary before judging
-	c16Slack   = 1500 * time.Millisecond // progress slack after a detection time has passed
-	c16Silence = 4 * time.Second         // a live session transmits at least once per second
-	c16Handoff = 5 * time.Second         // a live session takes a message from its queue
-	c16MaxDown = time.Second             // hard-coded transmit interval of a Down session
+	c16Margin  = 20 * time.Millisecond // distance kept from a detection-time boundary before judging
+	c16Slack   = 3 * time.Second       // progress slack after a detection time has passed
+	c16Silence = 6 * time.Second       // a live session transmits at least once per second
+	c16Handoff = 10 * time.Second      // a live session takes a message from its queue
+	c16MaxDown = time.Second           // hard-coded transmit interval of a Down session
 )
 
 // ---------------------------------------------------------------- plumbing
@@ -50,6 +50,7 @@ const (
 type c16Sent struct {
 	Seq   int       `json:"seq"`
 	T     time.Time `json:"-"`
+	Ms    float64   `json:"ms"` // time since the sender was created
 	State uint8     `json:"state"`
 	Your  uint32    `json:"your"`
 	TxUs  uint32    `json:"tx_us"`
@@ -61,20 +62,21 @@ type c16Sender struct {
 	recs []c16Sent
 	note chan struct{}
 	fwd  func(layers.BFD, int)
+	t0   time.Time
 }
 
 func newC16Sender(note chan struct{}) *c16Sender {
 	if note == nil {
 		note = make(chan struct{}, 1)
 	}
-	return &c16Sender{note: note}
+	return &c16Sender{note: note, t0: time.Now()}
 }
 
 func (c *c16Sender) Send(p *layers.BFD) error {
 	now := time.Now()
 	c.mu.Lock()
 	seq := len(c.recs)
-	c.recs = append(c.recs, c16Sent{Seq: seq, T: now, State: uint8(p.State),
+	c.recs = append(c.recs, c16Sent{Seq: seq, T: now, Ms: float64(now.Sub(c.t0).Microseconds()) / 1000, State: uint8(p.State),
 		Your: uint32(p.YourDiscriminator), TxUs: uint32(p.DesiredMinTxInterval)})
 	c.mu.Unlock()
 	select {
@@ -442,12 +444,12 @@ func c16GenCfg(rng *rand.Rand, txChoices, rxChoices []int, minMult int) c16Cfg {
 }
 
 // c16GenPacket builds one peer packet. Its detection time at the receiver is
-// between 300 and 700 ms (mult x desired-min-tx, which exceeds the receiver's
+// between 800 and 1500 ms (mult x desired-min-tx, which exceeds the receiver's
 // required-min-rx).
 func c16GenPacket(rng *rand.Rand, cfg c16Cfg, peerDisc uint32, st bfdref.State, variant string) bfdref.Packet {
-	tUs := uint32(300_000 + rng.IntN(400_001))
+	tUs := uint32(800_000 + rng.IntN(700_001))
 	m := uint8(1 + rng.IntN(5))
-	rxs := []uint32{1, 5_000, 10_000, 20_000, 30_000, 40_000}
+	rxs := []uint32{1, 5_000, 20_000, 40_000, 60_000}
 	p := bfdref.Packet{Version: 1, State: st, DetectMult: m, MyDisc: peerDisc, YourDisc: cfg.Disc,
 		DesiredMinTx: tUs / uint32(m), RequiredMinRx: rxs[rng.IntN(len(rxs))]}
 	if rng.IntN(10) == 0 {
@@ -520,7 +522,7 @@ func c16PickState(rng *rand.Rand, cur bfdref.State, noAD bool) bfdref.State {
 
 func c16GenHistory(rng *rand.Rand, idx int) c16History {
 	h := c16History{Monitor: "m2", Index: idx}
-	h.Cfg = c16GenCfg(rng, []int{10, 20, 30, 40}, []int{10, 20, 50}, 1)
+	h.Cfg = c16GenCfg(rng, []int{20, 30, 50, 80}, []int{10, 20, 50}, 1)
 	if rng.IntN(5) == 0 {
 		h.Cfg.Preset = rng.Uint32() | 1
 	}
@@ -575,6 +577,28 @@ type c16Arm struct {
 	t      time.Duration
 }
 
+// c16Earliest is the earliest instant at which a detection timer armed by one
+// of the candidate armings can fire (a timer armed after lo cannot fire before
+// lo+t). ok is false if no timer is armed.
+func c16Earliest(arms []c16Arm) (e time.Time, ok bool) {
+	for i, a := range arms {
+		if x := a.lo.Add(a.t); i == 0 || x.Before(e) {
+			e = x
+		}
+	}
+	return e, len(arms) > 0
+}
+
+// c16TimerSafe: a session in state st whose detection timer was armed by one
+// of arms cannot have taken a detection timeout before instant t.
+func c16TimerSafe(st bfdref.State, arms []c16Arm, t time.Time) bool {
+	if st != bfdref.Init && st != bfdref.Up {
+		return true // a timeout does not change Down
+	}
+	e, ok := c16Earliest(arms)
+	return !ok || t.Before(e.Add(-c16Margin))
+}
+
 type c16Obs struct {
 	Step   int    `json:"step"`
 	Kind   string `json:"kind"`
@@ -589,7 +613,8 @@ type c16Obs struct {
 // c16RunHistory executes one scripted-peer history against a fresh real
 // session. Violations of the state rules are reported directly; a missed
 // progress bound is returned so that it can be re-run in isolation. In a
-// re-run (rerun = true) counters are not updated.
+// re-run (rerun = true) counters are not updated and progress bounds are
+// doubled.
 func c16RunHistory(r *mon.Run, h c16History, rerun bool) *c16Miss {
 	snd := newC16Sender(nil)
 	live := c16Start(h.Cfg, snd)
@@ -598,6 +623,10 @@ func c16RunHistory(r *mon.Run, h c16History, rerun bool) *c16Miss {
 	var obs []c16Obs
 	next := 0 // index of the next unread sent packet
 	stuck := false
+	slack, silence := c16Slack, c16Silence
+	if rerun {
+		slack, silence = 2*slack, 2*silence
+	}
 	defer func() {
 		if !stuck {
 			live.stop()
@@ -610,22 +639,10 @@ func c16RunHistory(r *mon.Run, h c16History, rerun bool) *c16Miss {
 			r.Class(class)
 		}
 	}
-	earliestExpiry := func() (time.Time, bool) {
-		var e time.Time
-		for i, a := range arms {
-			if x := a.lo.Add(a.t); i == 0 || x.Before(e) {
-				e = x
-			}
+	event := func(e string) {
+		if !rerun {
+			r.Event(e)
 		}
-		return e, len(arms) > 0
-	}
-	// timerSafe: the detection timer cannot have fired before instant t.
-	timerSafe := func(t time.Time) bool {
-		if ref.State != bfdref.Init && ref.State != bfdref.Up {
-			return true
-		}
-		e, ok := earliestExpiry()
-		return !ok || t.Before(e.Add(-c16Margin))
 	}
 	miss := func(key, what string) *c16Miss {
 		return &c16Miss{Key: key, What: what, Monitor: "m2", Index: h.Index, Witness: wit()}
@@ -646,74 +663,72 @@ func c16RunHistory(r *mon.Run, h c16History, rerun bool) *c16Miss {
 			stuck = true
 			return true, miss("C16:stuck", fmt.Sprintf("session in %v did not take a received packet within %v", cur, c16Handoff))
 		}
-		if !timerSafe(hi) {
+		// the message must have been taken before a detection timeout was possible
+		if !c16TimerSafe(cur, arms, hi) {
+			if os.Getenv("C16_DEBUG") != "" {
+				e, _ := c16Earliest(arms)
+				fmt.Printf("DEBUG late-inject hist=%d step=%d cur=%v arms=%d late_by=%v handoff=%v since_arm=%v obs=%+v\n", h.Index, si, cur, len(arms), hi.Sub(e), hi.Sub(lo), hi.Sub(arms[0].lo), obs)
+			}
 			return true, inconclusive("m2-harness-late-inject")
 		}
-		seq0 := snd.count()
-		if seq0 < next {
-			seq0 = next
-		}
-		newT := time.Duration(ref.DetectTime(p)) * time.Microsecond
+		seq0 := max(snd.count(), next)
 		accepted := bfdref.OnReceive(cur, p.State)
-		var want []bfdref.State
+		newArm := []c16Arm{{lo, hi, time.Duration(ref.DetectTime(p)) * time.Microsecond}}
+		type branch struct {
+			st   bfdref.State
+			arms []c16Arm
+		}
+		var branches []branch
 		switch verdict {
 		case bfdref.Accept:
-			want = []bfdref.State{accepted}
-			arms = []c16Arm{{lo, hi, newT}}
+			branches = []branch{{accepted, newArm}}
 		case bfdref.Discard:
-			want = []bfdref.State{cur}
-		default:
-			want = []bfdref.State{cur, accepted}
-			arms = append(arms, c16Arm{lo, hi, newT})
+			branches = []branch{{cur, arms}}
+		default: // not judged: either discarded or accepted
+			branches = []branch{{cur, arms}, {accepted, newArm}}
 		}
-		rec, ok := snd.get(seq0, hi.Add(c16Silence))
+		rec, ok := snd.get(seq0, hi.Add(silence))
 		if !ok {
-			return true, miss("C16:silent", fmt.Sprintf("no packet sent within %v after a received packet (state %v)", c16Silence, cur))
+			return true, miss("C16:silent", fmt.Sprintf("no packet sent within %v after a received packet (state %v)", silence, cur))
 		}
 		next = rec.Seq + 1
-		// If the state after this packet can be Init/Up the detection timer
-		// must not be able to have fired before the observed packet was sent.
-		for _, w := range want {
-			if w == bfdref.Init || w == bfdref.Up {
-				save := ref.State
-				ref.State = w
-				safe := timerSafe(rec.T)
-				ref.State = save
-				if !safe {
-					return true, inconclusive("m2-observation-near-detection-time")
-				}
+		for _, b := range branches {
+			if !c16TimerSafe(b.st, b.arms, rec.T) {
+				return true, inconclusive("m2-observation-near-detection-time")
 			}
 		}
 		got := bfdref.State(rec.State)
 		o := c16Obs{Step: si, Kind: kind, Before: cur.String(), Recv: p.State.String(), Rule: verdict.String() + "/" + reason,
-			Want: want[0].String(), Got: got.String(), DtMs: rec.T.Sub(lo).Milliseconds()}
-		if len(want) == 2 {
-			o.Want = want[0].String() + "|" + want[1].String()
+			Want: branches[0].st.String(), Got: got.String(), DtMs: rec.T.Sub(lo).Milliseconds()}
+		if len(branches) == 2 {
+			o.Want += "|" + branches[1].st.String()
 		}
 		obs = append(obs, o)
 		outcome := got.String()
 		if verdict == bfdref.Unjudged {
 			switch {
-			case want[0] == want[1]:
+			case branches[0].st == branches[1].st:
 				outcome += "/same"
-			case got == want[1]:
+			case got == branches[1].st:
 				outcome += "/accepted"
-			case got == want[0]:
+			case got == branches[0].st:
 				outcome += "/discarded"
 			}
 		}
 		eval(fmt.Sprintf("m2/%v/recv-%v/%s/%s", cur, p.State, reason, outcome))
-		if !rerun {
-			r.Event("m2_recv_" + verdict.String())
-		}
-		for _, w := range want {
-			if got == w {
-				ref.State = got
-				if verdict == bfdref.Accept {
-					ref.DetectTimeUs = ref.DetectTime(p)
-				}
-				return false, nil
+		event("m2_recv_" + verdict.String())
+		var matched []c16Arm
+		nmatch := 0
+		for _, b := range branches {
+			if got == b.st {
+				matched = append(matched, b.arms...)
+				nmatch++
 			}
+		}
+		if nmatch > 0 {
+			ref.State = got
+			arms = matched
+			return false, nil
 		}
 		var key, what string
 		switch {
@@ -740,12 +755,12 @@ func c16RunHistory(r *mon.Run, h c16History, rerun bool) *c16Miss {
 		case kind == "keepalive" && ref.State == bfdref.Up && len(arms) == 1:
 			for _, p := range st.Pkts {
 				// wait for the session's next transmission, then answer it
-				rec, ok := snd.get(next, time.Now().Add(c16Silence))
+				rec, ok := snd.get(next, time.Now().Add(silence))
 				if !ok {
 					return miss("C16:silent", "Up session stopped transmitting while packets keep flowing")
 				}
 				next = rec.Seq + 1
-				if !timerSafe(rec.T) {
+				if !c16TimerSafe(bfdref.Up, arms, rec.T) {
 					return inconclusive("m2-harness-late-keepalive")
 				}
 				eval("m2/Up/keepalive/" + stName(rec.State))
@@ -759,19 +774,17 @@ func c16RunHistory(r *mon.Run, h c16History, rerun bool) *c16Miss {
 					return m
 				}
 			}
-			if !rerun {
-				r.Event("m2_keepalive")
-			}
+			event("m2_keepalive")
 		case kind == "expire" && (ref.State == bfdref.Init || ref.State == bfdref.Up) && len(arms) == 1:
 			cur := ref.State
 			a := arms[0]
 			notBefore := a.lo.Add(a.t)
-			deadline := a.hi.Add(a.t + c16Slack)
+			deadline := a.hi.Add(a.t + slack)
 			for {
 				rec, ok := snd.get(next, deadline)
 				if !ok || (bfdref.State(rec.State) == cur && rec.T.After(deadline)) {
 					obs = append(obs, c16Obs{Step: si, Kind: "expire", Before: cur.String(), Want: "Down", Got: "still " + cur.String()})
-					return miss("C16:detect-late:"+cur.String(), fmt.Sprintf("session in %v receiving nothing had not sent Down %v after its detection time of %v", cur, c16Slack, a.t))
+					return miss("C16:detect-late:"+cur.String(), fmt.Sprintf("session in %v receiving nothing had not sent Down %v after its detection time of %v", cur, slack, a.t))
 				}
 				next = rec.Seq + 1
 				got := bfdref.State(rec.State)
@@ -780,9 +793,7 @@ func c16RunHistory(r *mon.Run, h c16History, rerun bool) *c16Miss {
 				}
 				obs = append(obs, c16Obs{Step: si, Kind: "expire", Before: cur.String(), Want: "Down", Got: got.String(), DtMs: rec.T.Sub(a.lo).Milliseconds()})
 				eval(fmt.Sprintf("m2/%v/expire/%v", cur, got))
-				if !rerun {
-					r.Event("m2_expire")
-				}
+				event("m2_expire")
 				if got != bfdref.Down {
 					r.Violation(fmt.Sprintf("C16:spontaneous:%v:%v", cur, got), fmt.Sprintf("session in %v receiving nothing sent state %v", cur, got), wit())
 					return nil
@@ -798,12 +809,12 @@ func c16RunHistory(r *mon.Run, h c16History, rerun bool) *c16Miss {
 			}
 		default: // quiet (also: expire/keepalive whose precondition does not hold)
 			cur := ref.State
-			rec, ok := snd.get(next, time.Now().Add(c16Silence))
+			rec, ok := snd.get(next, time.Now().Add(silence))
 			if !ok {
-				return miss("C16:silent", fmt.Sprintf("session in %v sent nothing for %v", cur, c16Silence))
+				return miss("C16:silent", fmt.Sprintf("session in %v sent nothing for %v", cur, silence))
 			}
 			next = rec.Seq + 1
-			if !timerSafe(rec.T) {
+			if !c16TimerSafe(cur, arms, rec.T) {
 				return inconclusive("m2-quiet-near-detection-time")
 			}
 			got := bfdref.State(rec.State)
@@ -815,6 +826,7 @@ func c16RunHistory(r *mon.Run, h c16History, rerun bool) *c16Miss {
 			}
 		}
 	}
+	event("m2_history_completed")
 	if !rerun && r.WantSample() && h.Index%97 == 3 {
 		r.Sample(wit())
 	}
@@ -841,7 +853,8 @@ type c16Pair struct {
 }
 
 type c16Delivery struct {
-	seq    int // sender's sequence number; -1 for forged packets
+	seq    int   // sender's sequence number
+	state  uint8 // State field of the delivered packet
 	lo, hi time.Time
 	t      time.Duration // detection time this packet establishes at the receiver
 }
@@ -902,7 +915,7 @@ func (l *c16Link) deliver(p *layers.BFD, seq int) bool {
 	if uint64(p.DesiredMinTxInterval) > iv {
 		iv = uint64(p.DesiredMinTxInterval)
 	}
-	l.delivered = append(l.delivered, c16Delivery{seq: seq, lo: lo, hi: time.Now(),
+	l.delivered = append(l.delivered, c16Delivery{seq: seq, state: uint8(p.State), lo: lo, hi: time.Now(),
 		t: time.Duration(uint64(p.DetectMultiplier)*iv) * time.Microsecond})
 	return true
 }
@@ -925,10 +938,7 @@ func (l *c16Link) run(stop chan struct{}, wg *sync.WaitGroup) {
 		if i < len(l.acts) {
 			act = l.acts[i]
 		}
-		if l.idx >= len(l.acts) && !l.clean {
-			l.clean = true
-			l.cleanAt = time.Now()
-		}
+		becameClean := l.idx >= len(l.acts) && !l.clean
 		ok := true
 		if !l.cut {
 			if act.Forge != nil {
@@ -942,6 +952,13 @@ func (l *c16Link) run(stop chan struct{}, wg *sync.WaitGroup) {
 					ok = l.deliver(&q.p, q.seq)
 				}
 			}
+		}
+		if becameClean {
+			// set only after the last hostile action (including its forged
+			// packet) has been handed over: from cleanAt on, everything the
+			// receiver gets is a genuine packet, in order.
+			l.clean = true
+			l.cleanAt = time.Now()
 		}
 		l.mu.Unlock()
 		select {
@@ -968,18 +985,18 @@ func (l *c16Link) firstDeliveredFrom(seq int) (time.Time, bool) {
 }
 
 func c16GenPair(rng *rand.Rand, idx int) c16Pair {
-	iv := []int{50, 60, 80, 100}
+	iv := []int{80, 100, 150, 200}
 	p := c16Pair{Monitor: "m3", Index: idx}
 	p.A = c16GenCfg(rng, iv, iv, 3)
 	p.B = c16GenCfg(rng, iv, iv, 3)
 	if p.B.Disc == p.A.Disc {
 		p.B.Disc ^= 0x10
 	}
-	// detection time at each receiver: at least 250 ms
-	for uint32(p.B.Mult)*uint32(max(p.A.RxMs, p.B.TxMs)) < 250 {
+	// detection time at each receiver: at least 400 ms
+	for uint32(p.B.Mult)*uint32(max(p.A.RxMs, p.B.TxMs)) < 400 {
 		p.B.Mult++
 	}
-	for uint32(p.A.Mult)*uint32(max(p.B.RxMs, p.A.TxMs)) < 250 {
+	for uint32(p.A.Mult)*uint32(max(p.B.RxMs, p.A.TxMs)) < 400 {
 		p.A.Mult++
 	}
 	p.AdminDown = rng.IntN(100) < 20
@@ -1037,6 +1054,34 @@ func c16GenPair(rng *rand.Rand, idx int) c16Pair {
 	return p
 }
 
+// c16LegitLeave decides whether a session that was Up (its detection timer
+// armed by delivery ds[since] or a later one) and whose first non-Up packet
+// was sent at instant t may have left Up according to RFC 5880: because a
+// Down/AdminDown packet was handed to it before t, or because a detection
+// timeout was possible — some delivery i was followed by no completed
+// hand-off until lo_i + T_i (a timer armed after lo_i cannot fire earlier, and
+// an expiry that fires after the next hand-off is cancelled by it). Sound
+// under arbitrary scheduling delays.
+func c16LegitLeave(ds []c16Delivery, since int, t time.Time) (bool, string) {
+	prev := -1
+	for i := max(since, 0); i < len(ds) && ds[i].lo.Before(t); i++ {
+		if s := bfdref.State(ds[i].state); s == bfdref.Down || s == bfdref.AdminDown {
+			return true, "received " + s.String()
+		}
+		if prev >= 0 && !ds[i].hi.Before(ds[prev].lo.Add(ds[prev].t)) {
+			return true, "gap between deliveries reached the detection time"
+		}
+		prev = i
+	}
+	if prev < 0 {
+		return true, "no delivery known"
+	}
+	if !t.Before(ds[prev].lo.Add(ds[prev].t - time.Millisecond)) {
+		return true, "nothing received for the detection time"
+	}
+	return false, ""
+}
+
 // c16RunPair runs two real sessions over the scripted link.
 func c16RunPair(r *mon.Run, pc c16Pair, rerun bool) *c16Miss {
 	note := make(chan struct{}, 1)
@@ -1062,28 +1107,35 @@ func c16RunPair(r *mon.Run, pc c16Pair, rerun bool) *c16Miss {
 	defer func() {
 		close(stop)
 		wg.Wait()
-		ab.mu.Lock()
-		ba.mu.Lock()
-		st := ab.stuck || ba.stuck
-		ba.mu.Unlock()
-		ab.mu.Unlock()
-		if !st {
+		if !ab.stuck && !ba.stuck {
 			la.stop()
 			lb.stop()
 		}
 	}()
 
+	slack, silence := c16Slack, c16Silence
+	if rerun {
+		slack, silence = 2*slack, 2*silence
+	}
 	txMax := max(pc.A.TxMs, pc.A.RxMs, pc.B.TxMs, pc.B.RxMs)
 	expected := c16MaxDown + 4*time.Duration(txMax)*time.Millisecond
 	bound := 20 * expected
-	tA := time.Duration(int(pc.B.Mult)*max(pc.A.RxMs, pc.B.TxMs)) * time.Millisecond // detection time at A while B is Up
-	tB := time.Duration(int(pc.A.Mult)*max(pc.B.RxMs, pc.A.TxMs)) * time.Millisecond
 	wit := func() any {
 		tail := func(s *c16Sender) []c16Sent {
 			n := s.count()
-			return s.snapshot(max(0, n-12))
+			return s.snapshot(max(0, n-14))
+		}
+		dl := func(l *c16Link) [][4]float64 {
+			ds := lockedDeliveries(l)
+			ds = ds[max(0, len(ds)-14):]
+			out := make([][4]float64, len(ds))
+			for i, d := range ds {
+				out[i] = [4]float64{float64(d.seq), float64(d.state), float64(d.lo.Sub(sa.t0).Microseconds()) / 1000, float64(d.hi.Sub(sa.t0).Microseconds()) / 1000}
+			}
+			return out
 		}
 		return map[string]any{"pair": pc, "phases": phases, "last_sent_a": tail(sa), "last_sent_b": tail(sb),
+			"last_deliveries_to_b_seq_state_lo_hi_ms": dl(ab), "last_deliveries_to_a_seq_state_lo_hi_ms": dl(ba),
 			"expected_negotiation_ms": expected.Milliseconds(), "bound_ms": bound.Milliseconds()}
 	}
 	miss := func(key, what string) *c16Miss {
@@ -1093,6 +1145,11 @@ func c16RunPair(r *mon.Run, pc c16Pair, rerun bool) *c16Miss {
 		if !rerun {
 			r.Eval(1)
 			r.Class(class)
+		}
+	}
+	event := func(e string) {
+		if !rerun {
+			r.Event(e)
 		}
 	}
 	wait := func(deadline time.Time) bool {
@@ -1108,81 +1165,77 @@ func c16RunPair(r *mon.Run, pc c16Pair, rerun bool) *c16Miss {
 		}
 		return true
 	}
-	// upRun: index of the first packet of the trailing run of Up packets.
-	upRun := func(s *c16Sender) (start int, lastT time.Time, ok bool) {
+	// upRun: index of the first packet of the trailing run of Up packets and
+	// the send time of the latest packet.
+	upRun := func(s *c16Sender) (start, last int, lastT time.Time, ok bool) {
 		s.mu.Lock()
 		defer s.mu.Unlock()
 		n := len(s.recs)
 		if n == 0 || s.recs[n-1].State != uint8(bfdref.Up) {
-			return 0, time.Time{}, false
+			return 0, 0, time.Time{}, false
 		}
 		i := n - 1
 		for i > 0 && s.recs[i-1].State == uint8(bfdref.Up) {
 			i--
 		}
-		return i, s.recs[n-1].T, true
+		return i, n - 1, s.recs[n-1].T, true
 	}
 	// stableUp: both sessions are Up and everything in flight between them was
-	// sent by an Up session (see the argument in the package comment of this
-	// function's caller): each side's latest packet is Up, was sent after the
-	// first packet of the peer's current Up run had been delivered to it.
-	stableUp := func() bool {
-		a0, aT, okA := upRun(sa)
-		b0, bT, okB := upRun(sb)
-		if !okA || !okB {
-			return false
-		}
-		dB, ok1 := ab.firstDeliveredFrom(a0) // A's Up run has reached B
-		dA, ok2 := ba.firstDeliveredFrom(b0) // B's Up run has reached A
-		return ok1 && ok2 && aT.After(dA) && bT.After(dB)
+	// sent by an Up session. Each side's latest packet is Up and was sent after
+	// the first delivered packet of the peer's current run of Up packets had
+	// been handed to it and after the last forged packet had been handed to it.
+	// The link is FIFO and forges nothing any more, so
+	// whatever a side receives from then on is an Up packet; by induction both
+	// stay Up unless a detection timeout is possible.
+	type stable struct {
+		aSeq, bSeq int       // latest (Up) packets of a and b
+		aT, bT     time.Time // their send times
 	}
-	waitStable := func(until time.Time) bool {
+	stableUp := func() (stable, bool) {
+		a0, aN, aT, okA := upRun(sa)
+		b0, bN, bT, okB := upRun(sb)
+		if !okA || !okB {
+			return stable{}, false
+		}
+		dB, ok1 := ab.firstDeliveredFrom(a0) // a's Up run has reached b
+		dA, ok2 := ba.firstDeliveredFrom(b0) // b's Up run has reached a
+		ab.mu.Lock()
+		cleanB := ab.cleanAt // nothing forged reaches b after this instant
+		ab.mu.Unlock()
+		ba.mu.Lock()
+		cleanA := ba.cleanAt
+		ba.mu.Unlock()
+		if ok1 && ok2 && aT.After(dA) && bT.After(dB) && aT.After(cleanA) && bT.After(cleanB) {
+			return stable{aN, bN, aT, bT}, true
+		}
+		return stable{}, false
+	}
+	waitStable := func(until time.Time) (stable, bool) {
 		for {
-			if stableUp() {
-				return true
+			if s, ok := stableUp(); ok {
+				return s, true
+			}
+			if ab.isStuck() || ba.isStuck() {
+				return stable{}, false
 			}
 			if !wait(until) {
 				return stableUp()
 			}
 		}
 	}
-	linkStuck := func() bool {
-		ab.mu.Lock()
-		defer ab.mu.Unlock()
-		ba.mu.Lock()
-		defer ba.mu.Unlock()
-		return ab.stuck || ba.stuck
+	// sinceIdx: the last delivery whose hand-off completed before instant t.
+	sinceIdx := func(ds []c16Delivery, t time.Time) int {
+		k := -1
+		for i, d := range ds {
+			if d.hi.Before(t) {
+				k = i
+			}
+		}
+		return k
 	}
 
 	// phase 1: hostile link. Every packet index is consumed within one Down
 	// transmit interval, so the phase ends by itself.
-	hostileDeadline := time.Now().Add(time.Duration(max(len(pc.ActsAB), len(pc.ActsBA))+3)*c16MaxDown + c16Silence)
-	for {
-		ab.mu.Lock()
-		ba.mu.Lock()
-		both := ab.clean && ba.clean
-		cleanAt := ab.cleanAt
-		if ba.cleanAt.After(cleanAt) {
-			cleanAt = ba.cleanAt
-		}
-		ba.mu.Unlock()
-		ab.mu.Unlock()
-		if both {
-			phases = append(phases, fmt.Sprintf("link well-behaved after %d/%d packets", len(pc.ActsAB), len(pc.ActsBA)))
-			hostileDeadline = cleanAt
-			break
-		}
-		if linkStuck() {
-			return miss("C16:stuck", "a session stopped taking received packets during the hostile phase")
-		}
-		if !wait(hostileDeadline) {
-			key := "C16:silent"
-			if pc.AdminDown {
-				key = "C16:no-recovery-after-admindown"
-			}
-			return miss(key, "a session stopped transmitting during the hostile phase")
-		}
-	}
 	kind := "hostile"
 	if len(pc.ActsAB) == 0 && len(pc.ActsBA) == 0 {
 		kind = "clean"
@@ -1190,54 +1243,106 @@ func c16RunPair(r *mon.Run, pc c16Pair, rerun bool) *c16Miss {
 	if pc.AdminDown {
 		kind = "hostile+admindown"
 	}
-	// phase 2: bounded progress — both Up within bound after the link behaves.
-	if !waitStable(hostileDeadline.Add(bound)) {
-		eval("m3/" + kind + "/recover/missed")
-		key := "C16:no-recovery"
-		if pc.AdminDown {
-			key = "C16:no-recovery-after-admindown"
-		}
-		return miss(key, fmt.Sprintf("both sessions were not Up %v (20 x expected negotiation time %v) after the link started to deliver every packet", bound, expected))
+	noRecoveryKey := "C16:no-recovery"
+	if pc.AdminDown {
+		noRecoveryKey = "C16:no-recovery-after-admindown"
 	}
-	phases = append(phases, fmt.Sprintf("both Up %v after the link behaved", time.Since(hostileDeadline).Round(time.Millisecond)))
-	eval("m3/" + kind + "/recover/up")
-	if !rerun {
-		r.Event("m3_recovered")
+	hostileDeadline := time.Now().Add(time.Duration(max(len(pc.ActsAB), len(pc.ActsBA))+3)*c16MaxDown + silence)
+	var behavedAt time.Time
+	for {
+		ab.mu.Lock()
+		ba.mu.Lock()
+		both := ab.clean && ba.clean
+		behavedAt = ab.cleanAt
+		if ba.cleanAt.After(behavedAt) {
+			behavedAt = ba.cleanAt
+		}
+		ba.mu.Unlock()
+		ab.mu.Unlock()
+		if both {
+			phases = append(phases, fmt.Sprintf("link well-behaved after %d/%d packets", len(pc.ActsAB), len(pc.ActsBA)))
+			break
+		}
+		if ab.isStuck() || ba.isStuck() {
+			return miss("C16:stuck", "a session stopped taking received packets during the hostile phase")
+		}
+		if !wait(hostileDeadline) {
+			key := "C16:silent"
+			if pc.AdminDown {
+				key = noRecoveryKey
+			}
+			return miss(key, "a session stopped transmitting during the hostile phase")
+		}
 	}
 
-	// phase 3: stay Up while packets keep flowing.
-	na, nb := sa.count(), sb.count()
-	da0, db0 := len(lockedDeliveries(ba)), len(lockedDeliveries(ab))
-	stayDeadline := time.Now().Add(time.Duration(pc.Stay*txMax)*time.Millisecond*2 + c16Silence)
-	for sa.count() < na+pc.Stay || sb.count() < nb+pc.Stay {
-		if !wait(stayDeadline) {
-			return miss("C16:silent", "an Up session stopped transmitting on a clean link")
+	// phases 2+3: bounded progress — both Up within bound after the link
+	// behaves — and then stay Up while packets keep flowing. A session that
+	// leaves Up is judged by c16LegitLeave; a legitimate flap (possible only
+	// when this process is starved) restarts the wait, a few times.
+	progressFrom := behavedAt
+	var stayFromA, stayFromB int // first packet index of the final stay phase
+	var sinceA, sinceB int
+	for attempt := 0; ; attempt++ {
+		st, ok := waitStable(progressFrom.Add(bound))
+		if !ok {
+			if ab.isStuck() || ba.isStuck() {
+				return miss("C16:stuck", "a session stopped taking received packets")
+			}
+			eval("m3/" + kind + "/recover/missed")
+			return miss(noRecoveryKey, fmt.Sprintf("both sessions were not Up %v (20 x expected negotiation time %v) after the link started to deliver every packet", bound, expected))
 		}
-	}
-	gapOK := func(ds []c16Delivery, from int, t time.Duration) bool {
-		for i := max(from, 1); i < len(ds); i++ {
-			if ds[i].hi.Sub(ds[i-1].lo) >= t-c16Margin {
-				return false
+		if attempt == 0 {
+			phases = append(phases, fmt.Sprintf("both Up %v after the link behaved", time.Since(behavedAt).Round(time.Millisecond)))
+			eval("m3/" + kind + "/recover/up")
+			event("m3_recovered")
+		}
+		stayFromA, stayFromB = st.aSeq, st.bSeq
+		sinceA = sinceIdx(lockedDeliveries(ba), st.aT)
+		sinceB = sinceIdx(lockedDeliveries(ab), st.bT)
+		stayDeadline := time.Now().Add(time.Duration(pc.Stay*txMax)*time.Millisecond*2 + silence)
+		flapped := false
+		for {
+			badA, badB := firstNotUp(sa.snapshot(stayFromA)), firstNotUp(sb.snapshot(stayFromB))
+			if badA != nil || badB != nil {
+				flapped = true
+				for _, x := range []struct {
+					name  string
+					bad   *c16Sent
+					ds    []c16Delivery
+					since int
+				}{{"a", badA, lockedDeliveries(ba), sinceA}, {"b", badB, lockedDeliveries(ab), sinceB}} {
+					if x.bad == nil {
+						continue
+					}
+					if ok, _ := c16LegitLeave(x.ds, x.since, x.bad.T); !ok {
+						eval("m3/" + kind + "/stay/dropped")
+						r.Violation("C16:dropped-while-flowing", fmt.Sprintf("session %s left Up (sent %s) although it had received no Down and every packet reached it within its detection time",
+							x.name, stName(x.bad.State)), wit())
+						return nil
+					}
+				}
+				break
+			}
+			if sa.count() >= stayFromA+pc.Stay && sb.count() >= stayFromB+pc.Stay {
+				break
+			}
+			if !wait(stayDeadline) {
+				return miss("C16:silent", "an Up session stopped transmitting on a clean link")
 			}
 		}
-		return true
-	}
-	badA, badB := firstNotUp(sa.snapshot(na)), firstNotUp(sb.snapshot(nb))
-	if badA != nil || badB != nil {
-		if !gapOK(lockedDeliveries(ba), da0, tA) || !gapOK(lockedDeliveries(ab), db0, tB) {
-			if !rerun {
-				r.Inconclusive("m3-harness-slow-link")
-			}
+		if !flapped {
+			break
+		}
+		if !rerun {
+			r.Inconclusive("m3-legitimate-flap-under-load")
+		}
+		if attempt >= 3 {
 			return nil
 		}
-		eval("m3/" + kind + "/stay/dropped")
-		r.Violation("C16:dropped-while-flowing", fmt.Sprintf("a session left Up on a link that delivers every packet in time (a: %v, b: %v)", badA, badB), wit())
-		return nil
+		progressFrom = time.Now()
 	}
 	eval("m3/" + kind + "/stay/up")
-	if !rerun {
-		r.Event("m3_stayed_up")
-	}
+	event("m3_stayed_up")
 	phases = append(phases, fmt.Sprintf("stayed Up for %d more packets each", pc.Stay))
 
 	// phase 4: the link goes dead; each session goes Down after its own
@@ -1245,39 +1350,43 @@ func c16RunPair(r *mon.Run, pc c16Pair, rerun bool) *c16Miss {
 	ab.mu.Lock()
 	ba.mu.Lock()
 	ab.cut, ba.cut = true, true
-	lastToB := ab.delivered[len(ab.delivered)-1]
-	lastToA := ba.delivered[len(ba.delivered)-1]
+	cutAt := time.Now()
+	dsToB := append([]c16Delivery(nil), ab.delivered...)
+	dsToA := append([]c16Delivery(nil), ba.delivered...)
 	ba.mu.Unlock()
 	ab.mu.Unlock()
-	na, nb = sa.count(), sb.count()
 	type side struct {
-		name string
-		snd  *c16Sender
-		from int
-		last c16Delivery
-		down bool
+		name    string
+		snd     *c16Sender
+		from    int
+		ds      []c16Delivery
+		since   int
+		judged  bool
+		down    bool
+		lastLeg string
 	}
-	sides := []*side{{"a", sa, na, lastToA, false}, {"b", sb, nb, lastToB, false}}
-	cutDeadline := time.Now().Add(max(lastToA.t, lastToB.t) + c16Slack + c16MaxDown)
-	for !(sides[0].down && sides[1].down) {
+	sides := []*side{{name: "a", snd: sa, from: stayFromA, ds: dsToA, since: sinceA}, {name: "b", snd: sb, from: stayFromB, ds: dsToB, since: sinceB}}
+	maxT := max(dsToA[len(dsToA)-1].t, dsToB[len(dsToB)-1].t)
+	cutDeadline := cutAt.Add(maxT + slack + c16MaxDown)
+	for {
 		for _, sd := range sides {
 			for _, rec := range sd.snd.snapshot(sd.from) {
 				sd.from = rec.Seq + 1
-				if sd.down {
+				st := bfdref.State(rec.State)
+				if st == bfdref.Down && rec.T.After(cutAt) {
+					sd.down = true
+				}
+				if sd.judged || st == bfdref.Up {
 					continue
 				}
-				switch bfdref.State(rec.State) {
-				case bfdref.Up:
-				case bfdref.Down:
-					sd.down = true
-					eval("m3/" + kind + "/cut/down")
-					if rec.T.Before(sd.last.lo.Add(sd.last.t - time.Millisecond)) {
-						r.Violation("C16:detect-early:Up", fmt.Sprintf("session %s went Down %v after its last received packet, before its detection time %v",
-							sd.name, rec.T.Sub(sd.last.lo), sd.last.t), wit())
-						return nil
-					}
-				default:
-					r.Violation(fmt.Sprintf("C16:spontaneous:Up:%s", stName(rec.State)), fmt.Sprintf("session %s receiving nothing sent state %s", sd.name, stName(rec.State)), wit())
+				sd.judged = true // the first non-Up packet
+				ok, why := c16LegitLeave(sd.ds, sd.since, rec.T)
+				sd.lastLeg = why
+				eval("m3/" + kind + "/cut/" + st.String())
+				if !ok {
+					last := sd.ds[len(sd.ds)-1]
+					r.Violation("C16:detect-early:Up", fmt.Sprintf("session %s left Up (sent %v) %v after its last received packet, before its detection time %v, without having received Down",
+						sd.name, st, rec.T.Sub(last.lo), last.t), wit())
 					return nil
 				}
 			}
@@ -1286,13 +1395,11 @@ func c16RunPair(r *mon.Run, pc c16Pair, rerun bool) *c16Miss {
 			break
 		}
 		if !wait(cutDeadline) {
-			return miss("C16:detect-late:Up", fmt.Sprintf("a session that stopped receiving had not sent Down %v after its detection time (a: %v, b: %v)", c16Slack, lastToA.t, lastToB.t))
+			return miss("C16:detect-late:Up", fmt.Sprintf("a session that stopped receiving had not sent Down %v after its detection time (at most %v)", slack, maxT))
 		}
 	}
-	if !rerun {
-		r.Event("m3_timed_out")
-	}
-	phases = append(phases, "link cut: both Down after their detection time")
+	event("m3_timed_out")
+	phases = append(phases, fmt.Sprintf("link cut: both Down (a: %s; b: %s)", sides[0].lastLeg, sides[1].lastLeg))
 
 	// phase 5: the link behaves again; both come Up again.
 	ab.mu.Lock()
@@ -1301,14 +1408,15 @@ func c16RunPair(r *mon.Run, pc c16Pair, rerun bool) *c16Miss {
 	ba.mu.Unlock()
 	ab.mu.Unlock()
 	restored := time.Now()
-	if !waitStable(restored.Add(bound)) {
+	if _, ok := waitStable(restored.Add(bound)); !ok {
+		if ab.isStuck() || ba.isStuck() {
+			return miss("C16:stuck", "a session stopped taking received packets")
+		}
 		eval("m3/" + kind + "/restore/missed")
 		return miss("C16:no-recovery-after-timeout", fmt.Sprintf("both sessions were not Up again %v after the dead link was restored", bound))
 	}
 	eval("m3/" + kind + "/restore/up")
-	if !rerun {
-		r.Event("m3_restored")
-	}
+	event("m3_restored")
 	phases = append(phases, fmt.Sprintf("link restored: both Up after %v", time.Since(restored).Round(time.Millisecond)))
 	if !rerun && r.WantSample() && pc.Index%13 == 1 {
 		r.Sample(wit())
@@ -1320,6 +1428,12 @@ func lockedDeliveries(l *c16Link) []c16Delivery {
 	l.mu.Lock()
 	defer l.mu.Unlock()
 	return append([]c16Delivery(nil), l.delivered...)
+}
+
+func (l *c16Link) isStuck() bool {
+	l.mu.Lock()
+	defer l.mu.Unlock()
+	return l.stuck
 }
 
 func firstNotUp(recs []c16Sent) *c16Sent {
@@ -1344,7 +1458,7 @@ func checkC16(r *mon.Run) {
 		"selection of the session by Your Discriminator (RFC: discard on mismatch) is not judged: the router selects the session by link; observed and recorded as a class",
 		"packets using features the implementation documents as unsupported (poll, final, demand, echo) are not judged",
 		"'eventually' is decided as bounded progress: 20 x (1 s Down transmit interval + 4 x largest negotiated interval); a miss is re-run once in isolation before it is reported",
-		"intervals in generated packets are at most 700 ms; the effect of very large advertised intervals on recovery time is not explored",
+		"intervals in generated packets are at most 1.5 s; the effect of very large advertised intervals on recovery time is not explored",
 	}
 
 	if p := r.ReplayFile(); p != "" {
